@@ -349,7 +349,7 @@ class DualEval:
 
     def ev(self, s):
         t = s[0]
-        if t == "int":
+        if t in ("int", "float", "bool"):
             return lift(s[1]), self.zeros()
         if t == "Variable":
             return lift(self.point[s[1][1]]), self.leafdual(s)
